@@ -725,6 +725,10 @@ ssize_t ZCK_PUBLIC_API zck_get_chunk_comp_data(zckChunk *idx, char *dst,
     if(!seek_data(zck, zck_get_chunk_start(idx), SEEK_SET))
         return -1;
 
+    /* Never hand out more than this chunk, however large the buffer is */
+    if(dst_size > idx->comp_length)
+        dst_size = idx->comp_length;
+
     /* Return read chunk */
     return read_data(zck, dst, dst_size);
 }
@@ -748,6 +752,10 @@ ssize_t ZCK_PUBLIC_API zck_get_chunk_data(zckChunk *idx, char *dst,
     /* Make sure requested chunk has a beginning */
     if(zck_get_chunk_start(idx) < 0)
         return -1;
+
+    /* Never hand out more than this chunk, however large the buffer is */
+    if(dst_size > idx->length)
+        dst_size = idx->length;
 
     /* Forget the reading state left behind by previous requests */
     if(!comp_reset_comp_data(zck))
